@@ -31,6 +31,7 @@ from fcp.result import Result, Ok
 from fcp.specs.v2 import FcpV2
 from fcp.error import FcpError, error
 from fcp.types import Nil
+from fcp.encoding import make_encoder, PackedEncoderContext
 
 from .can_c_writer import CanCWriter
 
@@ -111,8 +112,10 @@ class Generator(CodeGenerator):
             if extension.protocol != "can":
                 return Ok(())
 
-            struct = fcp.get_struct(extension.type)
-            size = sum([field.type.get_length() for field in struct.unwrap().fields])
+            encoding = make_encoder(
+                "packed", fcp, PackedEncoderContext().with_unroll_arrays(True)
+            ).generate(extension)
+            size = encoding[-1].bitstart + encoding[-1].bitlength if encoding else 0
             if size > 64:
                 return error(
                     f"Impl {extension.name} is way too big at {size} bits",
